@@ -46,7 +46,7 @@ def check(run, repo):
     n = 0
     for cname, qual in CLASSES:
         ci = repo.cls(qual)
-        I = Interp(repo, max_depth=12)
+        I = Interp(repo)
         D = I.D
         T, P, P2 = D.sym('T'), D.sym('P'), D.sym('P2')
         rxn, rs, ps, ts = reaction(I, repo, qual)
@@ -197,7 +197,7 @@ def network(run, repo):
         raise AnchorError('pmutt.reaction.network.get_state_quantity not found')
     repo.consulted.add(m)
     run.fn('pmutt.reaction.network.get_state_quantity')
-    I = Interp(repo, max_depth=12)
+    I = Interp(repo)
     D = I.D
     T, P, P2 = D.sym('T'), D.sym('P'), D.sym('P2')
     rxn, rs, ps, ts = reaction(I, repo, 'pmutt.reaction.Reaction')
